@@ -169,6 +169,12 @@ class DenseNormal(ssm_impl_api.AbstractTreeNormal[DenseTreeFlatten]):
         return self.logpdf_flat(u)
 
     def logpdf_flat(self, u, /):
+        if np.shape(u) != np.shape(self.mean_flat):
+            msg = "The data does not match the shape of the mean."
+            msg += f" Expected: {np.shape(self.mean_flat)}."
+            msg += f" Received: {np.shape(u)}."
+            raise ValueError(msg)
+
         cholesky = linalg.qr_r(self.cholesky_flat.T).T
         diagonal = linalg.diagonal_along_axis(cholesky, axis1=-1, axis2=-2)
         slogdet = np.sum(np.log(np.abs(diagonal)))
